@@ -232,8 +232,8 @@ func c10StatsOnce(p *load.Program, r *oblig.Report) {
 				return
 			}
 			n++
-			if fn.Parent() != nil {
-				return // the closure handed to once.Do
+			if insideOnceDo(fn) {
+				return // the function handed to once.Do (a literal, or a method value called from nowhere else)
 			}
 			if _, fresh := fa.X.(*ssa.Alloc); fresh {
 				return // a Writer under construction
@@ -756,14 +756,72 @@ func c15KeepMemberID(p *load.Program, r *oblig.Report, rule string) {
 		if !isEx || ex.Tuple != ssa.Value(join) {
 			continue
 		}
-		// every return reached on the failure edge before anything else hands back the parameter
+		// every return reached on the failure edge hands back the id the coordinator knows the member by: the one
+		// joinGroup returns when it is not empty (the join was accepted, the leader's assignment failed afterwards),
+		// else the one nextGeneration was called with — never an empty id for a member that exists
+		var joined ssa.Value
+		for _, ref := range *join.Referrers() {
+			if x, isX := ref.(*ssa.Extract); isX && x.Index == 0 {
+				joined = x
+			}
+		}
+		emptyTested := false
+		for _, b2 := range an.Blocks(fn) {
+			_, c2 := an.IfCond(b2)
+			if c2 == nil || (c2.Op != token.NEQ && c2.Op != token.EQL) {
+				continue
+			}
+			for _, pr := range [][2]ssa.Value{{c2.X, c2.Y}, {c2.Y, c2.X}} {
+				if k, isK := pr[1].(*ssa.Const); isK && k.Value != nil && k.Value.Kind() == constant.String && constant.StringVal(k.Value) == "" {
+					if an.Unwrap(an.CellValueAt(pr[0])) == joined || an.Unwrap(pr[0]) == joined {
+						emptyTested = true
+					}
+				}
+			}
+		}
 		q := an.PathQuery{Fn: fn, Target: func(i ssa.Instruction) bool {
 			ret, isRet := i.(*ssa.Return)
 			if !isRet || ret.Parent() != fn {
 				return false
 			}
-			v := an.Unwrap(an.CellValueAt(an.RetVal(ret, 0)))
-			return v != ssa.Value(fn.Params[1])
+			seen := map[ssa.Value]bool{}
+			hasParam, hasJoined := false, false
+			var bad func(v ssa.Value) bool
+			bad = func(v ssa.Value) bool {
+				v = an.Unwrap(v)
+				if seen[v] {
+					return false
+				}
+				seen[v] = true
+				switch x := v.(type) {
+				case *ssa.Phi:
+					for _, e := range x.Edges {
+						if bad(e) {
+							return true
+						}
+					}
+					return false
+				case *ssa.UnOp:
+					if a, isA := x.X.(*ssa.Alloc); isA && x.Op == token.MUL {
+						for _, ref := range *a.Referrers() {
+							if st, isSt := ref.(*ssa.Store); isSt && st.Addr == ssa.Value(a) && bad(st.Val) {
+								return true
+							}
+						}
+						return false
+					}
+				}
+				if v == ssa.Value(fn.Params[1]) {
+					hasParam = true
+					return false
+				}
+				if v == joined {
+					hasJoined = true
+					return !emptyTested
+				}
+				return true
+			}
+			return bad(an.RetVal(ret, 0)) || !hasParam || !hasJoined
 		}}
 		hit := q.ReachableFrom(an.Point{B: b.Succs[e], Idx: -1})
 		okRet = hit == nil
@@ -772,7 +830,7 @@ func c15KeepMemberID(p *load.Program, r *oblig.Report, rule string) {
 			found = "the failure exit at " + p.Pos(hit.Pos()) + " returns " + clean(an.Shape(an.RetVal(hit.(*ssa.Return), 0))) + " as the member id"
 		}
 	}
-	r.Check(okRet, rule, "ConsumerGroup.nextGeneration → a failed joinGroup hands back the member id it was called with", p.Pos(join.Pos()), "joinedID, … := cg.joinGroup(conn, memberID); if err != nil { return memberID, err }", found)
+	r.Check(okRet, rule, "ConsumerGroup.nextGeneration → a failed joinGroup hands back the member id it was called with", p.Pos(join.Pos()), "joinedID, … := cg.joinGroup(conn, memberID); if err != nil { if joinedID != \"\" { memberID = joinedID }; return memberID, err }", found)
 }
 
 // c09WriterLookupDeadline: Writer.partitions calls the transport directly, which goes around the client's timeout;
